@@ -16,7 +16,7 @@
    metrics[idx].Values[sample]) and [matrix_doc] returning None. *)
 From Coq Require Import ZArith NArith List Bool.
 From FV.Model Require Import Bytes Bson Metrics Codec Collector Wf RoundTrip CollectorOk Validate Frame Views FrameOk.
-From FV.Proofs Require Import CodecChunk FrameValidate FrameProofs FrameStream.
+From FV.Proofs Require Import CodecChunk FrameValidate FrameSound FrameProofs FrameStream.
 Import ListNotations.
 Open Scope Z_scope.
 
@@ -81,6 +81,31 @@ Theorem C04_frame_ok : forall d,
   validate (enc_doc d) = true /\ dec_doc (enc_doc d) = Some (d, []).
 Proof. exact frame_ok_enc. Qed.
 
+(* the validator accepts only what the strict decoder decodes (b a string of bytes,
+   i.e. numbers below 256): readBufBSON's call of birch.ReadDocument after a
+   successful validation cannot fail (FMalformed after validation is dead code) *)
+Theorem C04_validate_sound : forall b, validate b = true -> wf_bytes b -> exists d, dec_doc b = Some (d, []).
+Proof. exact validate_sound. Qed.
+
+(* conversely: whatever the strict decoder reads as exactly one document (below
+   2 GiB, binary subtypes outside 0x06..0x7f) the validator accepts — so readBufBSON
+   rejects as malformed only what the decoder could not read, or what carries a
+   binary subtype birch panics on *)
+Theorem C04_validate_complete : forall b d,
+  dec_doc b = Some (d, []) -> small b -> doc_bin_ok d = true -> validate b = true.
+Proof. exact validate_complete. Qed.
+
+(* the validator's fuel (nesting depth bounded by the length) suffices: more never
+   changes the verdict; likewise the fuel of its element loop ([v_elems], the loop
+   of validate_doc as unfolded by FrameValidate.validate_doc_S), each iteration of
+   which consumes at least two bytes *)
+Theorem C04_validate_fuel : forall b k, validate_doc (S (length b) + k) b = validate b.
+Proof. exact validate_fuel_enough. Qed.
+
+Theorem C04_validate_loop_fuel : forall f body k,
+  v_elems f (S (length body) + k) body = v_elems f (S (length body)) body.
+Proof. exact validate_inner_fuel_enough. Qed.
+
 Section C04Bridge.
 Variable deflate : bytes -> bytes.
 Variable inflate : bytes -> option bytes.
@@ -122,6 +147,10 @@ Print Assumptions C04_prefix_intact.
 Print Assumptions C04_error_iff.
 Print Assumptions C04_error_reported.
 Print Assumptions C04_frame_ok.
+Print Assumptions C04_validate_sound.
+Print Assumptions C04_validate_complete.
+Print Assumptions C04_validate_fuel.
+Print Assumptions C04_validate_loop_fuel.
 Print Assumptions C04_bridge.
 Print Assumptions C04_bridge_stream.
 
